@@ -1,7 +1,8 @@
 """S-run: run monitor and searcher for the run-level properties C01 C02 C03 C04 C05 C07 C12 C15 C20.
 
 stdin: JSON payload {"focus": optimizer | "file.py:line" | property id | null, "n": #configurations (optional),
-"procs": 12, "timeout": seconds per task, "configs": [explicit configurations] (optional)}.
+"procs": 12, "timeout": seconds per task, "configs": [explicit configurations] (optional), "witnesses": [configurations of
+known findings, always re-run], "known": [[property, key], ...] (not shrunk again), "shrink": true}.
 stdout: last line `@@JSON {...}` with
   records      one per distinct (property, key): smallest failing configuration found (shrunk), fully explicit
   coverage     measured counts (configurations, objective calls, hooks, records, draws, per-optimizer budgets ...)
@@ -114,7 +115,7 @@ def main():
         cfgs = M.matrix(n, focus, timeout)
         cfgs += M.hunts(quick, focus, timeout)
     for k, w in enumerate(payload.get('witnesses') or []):      # recorded witnesses of known findings: re-run every time
-        cfgs.append(dict(w, id='witness-%d' % k, timeout=timeout))
+        cfgs.append(dict(w, id='witness-%d' % k, timeout=float(w.get('timeout', timeout))))
     results = run_pool(cfgs, procs)
     # soft timeouts may be caused by machine load: confirm each once, alone, with a longer limit
     retry = [i for i, r in enumerate(results) if r['stats'].get('status') in ('timeout', 'killed')]
@@ -141,9 +142,10 @@ def main():
         cov['objective_calls'] += s.get('n_evals') or 0
         cov['hook_calls'] += s.get('n_hooks') or 0
         cov['records'] += s.get('n_dumps') or 0
-        cov['uniform_calls'] += s.get('n_uniform') or 0
-        cov['normal_calls'] += s.get('n_normal') or 0
-        cov['choice_calls'] += s.get('n_choice') or 0
+        if st == 'ok':                       # a hung task draws until it is stopped: wall-clock dependent, not counted
+            cov['uniform_calls'] += s.get('n_uniform') or 0
+            cov['normal_calls'] += s.get('n_normal') or 0
+            cov['choice_calls'] += s.get('n_choice') or 0
         cov['agent_check_limits'] += s.get('clip_agent') or 0
         cov['space_check_limits'] += s.get('clip_space') or 0
         cov['nontrivial'] += 1 if s.get('nontrivial') else 0
@@ -173,10 +175,11 @@ def main():
             by.setdefault(k, []).append((cfg, v))
     records = []
     n_shrink = 0
+    known = [list(x) for x in (payload.get('known') or [])]     # already recorded findings: reported as found, not shrunk again
     for (prop, key) in sorted(by):
         lst = sorted(by[(prop, key)], key=lambda cv: M.size(cv[0]))
         cfg, v = lst[0]
-        if payload.get('shrink', True) and key != 'hard-timeout':
+        if payload.get('shrink', True) and key != 'hard-timeout' and [prop, key] not in known:
             small, tried = shrink(cfg, prop, key, procs)
             n_shrink += tried
             if small is not cfg:
